@@ -45,27 +45,39 @@ RECURSIVE SortAsc(_)
 SortAsc(s) == IF s = <<>> THEN <<>>
               ELSE LET m == CHOOSE i \in DOMAIN s : \A j \in DOMAIN s : s[i] <= s[j]
                    IN <<s[m]>> \o SortAsc([k \in 1..(Len(s) - 1) |-> IF k < m THEN s[k] ELSE s[k + 1]])
-MinF(d) == SortAsc(Finite(d))[1]
-MaxF(d) == SortAsc(Finite(d))[Len(Finite(d))]
+\* The stored value of a finite element x under the affine embedding af = <<a, b>> (a > 0) is a*x + b: the
+\* same array written in another unit / integer dtype (e.g. int8 data -100, -50, 0, 100 is af = <<50, -100>>).
+\* Everything below is parametrised by af; the identity embedding <<1, 0>> is the plain model.
+Id == <<1, 0>>
+V(x, af) == (af[1] * x) + af[2]
+MinF(d, af) == V(SortAsc(Finite(d))[1], af)
+MaxF(d, af) == V(SortAsc(Finite(d))[Len(Finite(d))], af)
 \* numpy.quantile, linear interpolation: position h = (n - 1) q
-Quantile(d, q) ==
+Quantile(d, q, af) ==
   LET srt == SortAsc(Finite(d))  nn == Len(srt)
       h == RMul(RI(nn - 1), q)
       fl == h[1] \div h[2]
       frac == RSub(h, RI(fl))
-  IN IF fl + 1 >= nn THEN RI(srt[nn])
-     ELSE RAdd(RI(srt[fl + 1]), RMul(frac, RI(srt[fl + 2] - srt[fl + 1])))
+  IN IF fl + 1 >= nn THEN RI(V(srt[nn], af))
+     ELSE RAdd(RI(V(srt[fl + 1], af)), RMul(frac, RI(V(srt[fl + 2], af) - V(srt[fl + 1], af))))
 
-Limits(d, c) ==
-  CASE c.t = "manual"   -> <<IF IsNone(c.lo) THEN RI(MinF(d)) ELSE c.lo, IF IsNone(c.hi) THEN RI(MaxF(d)) ELSE c.hi>>
+\* a configuration written in the embedded unit: given limits and centre move with the data, a half range scales
+CfgAff(c, af) == [c EXCEPT !.lo = IF IsNone(@) THEN @ ELSE RAdd(RMul(RI(af[1]), @), RI(af[2])),
+                           !.hi = IF IsNone(@) THEN @ ELSE RAdd(RMul(RI(af[1]), @), RI(af[2])),
+                           !.c = RAdd(RMul(RI(af[1]), @), RI(af[2])),
+                           !.h2 = IF IsNone(@) THEN @ ELSE RMul(RI(af[1]), @)]
+
+\* limits for data embedded by af and a configuration c written in that unit
+Limits(d, c, af) ==
+  CASE c.t = "manual"   -> <<IF IsNone(c.lo) THEN RI(MinF(d, af)) ELSE c.lo, IF IsNone(c.hi) THEN RI(MaxF(d, af)) ELSE c.hi>>
     [] c.t = "centered" -> LET h == IF IsNone(c.h2)
-                                    THEN (LET a == RSub(RI(MinF(d)), c.c)  b == RSub(RI(MaxF(d)), c.c)
+                                    THEN (LET a == RSub(RI(MinF(d, af)), c.c)  b == RSub(RI(MaxF(d, af)), c.c)
                                               aa == IF a[1] < 0 THEN <<-a[1], a[2]>> ELSE a
                                               bb == IF b[1] < 0 THEN <<-b[1], b[2]>> ELSE b
                                           IN IF RLe(aa, bb) THEN bb ELSE aa)
                                     ELSE c.h2
                            IN <<RSub(c.c, h), RAdd(c.c, h)>>
-    [] OTHER -> <<Quantile(d, c.ql), Quantile(d, c.qu)>>
+    [] OTHER -> <<Quantile(d, c.ql, af), Quantile(d, c.qu, af)>>
 
 Z == <<0, 1>>
 Cfgs == {[t |-> "manual", lo |-> l, hi |-> h, c |-> Z, h2 |-> NONE, ql |-> Z, qu |-> Z] : l \in {NONE, <<-1, 1>>, <<1, 1>>, <<1, 2>>}, h \in {NONE, <<3, 1>>, <<5, 2>>}}
@@ -74,15 +86,17 @@ Cfgs == {[t |-> "manual", lo |-> l, hi |-> h, c |-> Z, h2 |-> NONE, ql |-> Z, qu
                                                                   << <<0, 1>>, <<1, 2>> >>, << <<1, 50>>, <<49, 50>> >>}}
 
 Clip01(u) == IF RLt(u, RI(0)) THEN (IF ClipBug THEN u ELSE RI(0)) ELSE IF RLt(RI(1), u) THEN RI(1) ELSE u
-Map(x) == CASE x = NAN -> [k |-> "masked", u |-> RI(0)]
+MapL(x, l, h, af) ==
+          CASE x = NAN -> [k |-> "masked", u |-> RI(0)]
             [] x = PINF -> [k |-> "num", u |-> RI(1)]
             [] x = NINF -> [k |-> "num", u |-> IF ClipBug THEN RI(-1) ELSE RI(0)]
-            [] OTHER -> [k |-> "num", u |-> Clip01(RDiv(RSub(RI(x), lo), RSub(hi, lo)))]
+            [] OTHER -> [k |-> "num", u |-> Clip01(RDiv(RSub(RI(V(x, af)), l), RSub(h, l)))]
+Map(x) == MapL(x, lo, hi, Id)
 
 Init == /\ data \in UNION {[1..n -> Elems] : n \in 2..MaxLen}
         /\ Cardinality({data[i] : i \in {j \in DOMAIN data : IsFinite(data[j])}}) >= 2     \* two distinct finite values
         /\ cfg \in Cfgs
-        /\ lo = Limits(data, cfg)[1] /\ hi = Limits(data, cfg)[2]
+        /\ lo = Limits(data, cfg, Id)[1] /\ hi = Limits(data, cfg, Id)[2]
         /\ RLt(lo, hi)                                                                     \* a proper interval
         /\ out = <<>> /\ phase = "new"
 Normalize == /\ phase = "new" /\ out' = [i \in DOMAIN data |-> Map(data[i])] /\ phase' = "done"
@@ -98,6 +112,11 @@ Monotone == phase = "done" => \A i, j \in DOMAIN out :
 EndPoints == phase = "done" => \A i \in DOMAIN out :
               /\ (IsFinite(data[i]) /\ RI(data[i]) = lo) => out[i].u = RI(0)
               /\ (IsFinite(data[i]) /\ RI(data[i]) = hi) => out[i].u = RI(1)
+\* the normalised values do not depend on the unit / integer dtype the data are stored in
+Affs == {<<50, -100>>, <<15000, -30000>>, <<60, 0>>, <<15000, 0>>, <<3, 7>>}
+AffineInvariant == phase = "done" => \A af \in Affs :
+   LET c2 == CfgAff(cfg, af)  lim == Limits(data, c2, af)
+   IN \A i \in DOMAIN out : MapL(data[i], lim[1], lim[2], af) = out[i]
 NaNMasked == phase = "done" => \A i \in DOMAIN out : (data[i] = NAN) <=> (out[i].k = "masked")
 
 Emit == phase = "done" => PrintT(<<"CASE", ToJson([data |-> data, cfg |-> cfg, lo |-> lo, hi |-> hi, out |-> out])>>)
